@@ -210,6 +210,8 @@ def eval_dyad_adverb_iterate(f, a, b):
         Example: 3{1,x}:*[]  -->  [1 1 1]
 
     """
+    if hasattr(a, 'item'): # a NumPy integer count (e.g. the result of +/v) never tests equal to 0 below
+        a = a.item()
     while not safe_eq(a, 0):
         b = f(b)
         a = a - 1
